@@ -811,6 +811,15 @@ Section Top.
     cbn [Eval.AD]. unfold apply_at. cbn [check_arity accepts fn_arity].
     destruct (negb (can_accept (lambda_arity params) (Datatypes.length args))); [reflexivity|].
     cbn [call_passed].
+    (* the self reference is installed on both sides: the original's name is not captured (Hself),
+       the reloaded function captures nothing *)
+    assert (Hs1 : match lam_name st id with
+                  | Some n => match lookup_frame sv n with Some _ => [] | None => [(n, this)] end
+                  | None => []
+                  end = match lam_name st id with Some n => [(n, this)] | None => [] end).
+    { destruct (lam_name st id) as [n0|] eqn:En; [|reflexivity].
+      rewrite lookup_frame_rec_get, (Hself n0 eq_refl). reflexivity. }
+    rewrite Hs1. cbn [lookup_frame].
     set (acc := (match lookup fr "inputs" with Some i => [("inputs"%string, i)] | None => [] end ++
                  match lam_name st id with Some n => [(n, this)] | None => [] end)).
     set (acc' := (match lookup fr' "inputs" with Some i => [("inputs"%string, i)] | None => [] end ++
